@@ -82,6 +82,32 @@ func (*cache).Get
   // sentinel's successor (the full order of the list is not modelled)
   ensures seq_hit_becomes_most_recent: c.conf.EnableLRU && old(haskey(c.items, strid(key))) ==>
     addr(c, "usage").prev == addr(old(mapget(c.items, strid(key))), "used")
+  // ... and nothing else is reordered: the list after a hit is the list
+  // before it with that one node moved to the end (every other link is what
+  // it was, the gap is closed); a miss changes no link
+  ensures seq_hit_on_most_recent_changes_no_link: c.conf.EnableLRU && old(haskey(c.items, strid(key))) &&
+    addr(old(mapget(c.items, strid(key))), "used") == old(addr(c, "usage").prev) ==>
+    addr(c, "usage").next == old(addr(c, "usage").next) && addr(c, "usage").prev == old(addr(c, "usage").prev) &&
+    (forall k: haskey(c.items, k) ==> (let a = addr(mapget(c.items, k), "used") in a.next == old(a.next) && a.prev == old(a.prev)))
+  ensures seq_hit_moves_only_that_entry_next: c.conf.EnableLRU && old(haskey(c.items, strid(key))) &&
+    addr(old(mapget(c.items, strid(key))), "used") != old(addr(c, "usage").prev) ==>
+    (let s = addr(c, "usage") in let v = addr(old(mapget(c.items, strid(key))), "used") in
+     let last = old(addr(c, "usage").prev) in let p = old(addr(mapget(c.items, strid(key)), "used").prev) in
+     let n = old(addr(mapget(c.items, strid(key)), "used").next) in
+     s.next == (s == last ? v : (s == p ? n : old(addr(c, "usage").next))) &&
+     (forall k: haskey(c.items, k) ==> (let a = addr(mapget(c.items, k), "used") in
+        a.next == (a == v ? s : (a == last ? v : (a == p ? n : old(a.next)))))))
+  ensures seq_hit_moves_only_that_entry_prev: c.conf.EnableLRU && old(haskey(c.items, strid(key))) &&
+    addr(old(mapget(c.items, strid(key))), "used") != old(addr(c, "usage").prev) ==>
+    (let s = addr(c, "usage") in let v = addr(old(mapget(c.items, strid(key))), "used") in
+     let last = old(addr(c, "usage").prev) in let p = old(addr(mapget(c.items, strid(key)), "used").prev) in
+     let n = old(addr(mapget(c.items, strid(key)), "used").next) in
+     s.prev == v &&
+     (forall k: haskey(c.items, k) ==> (let a = addr(mapget(c.items, k), "used") in
+        a.prev == (a == v ? last : (a == n ? p : old(a.prev))))))
+  ensures seq_miss_changes_no_link: !old(haskey(c.items, strid(key))) || !c.conf.EnableLRU ==>
+    addr(c, "usage").next == old(addr(c, "usage").next) && addr(c, "usage").prev == old(addr(c, "usage").prev) &&
+    (forall k: haskey(c.items, k) ==> (let a = addr(mapget(c.items, k), "used") in a.next == old(a.next) && a.prev == old(a.prev)))
   ensures entries_unchanged: c.items == old(c.items) && c.size == old(c.size) &&
     (forall k: (haskey(c.items, k) <==> old(haskey(c.items, k))) && mapget(c.items, k) == old(mapget(c.items, k)))
 
@@ -105,6 +131,20 @@ func (*cache).Set
   callback requires lock_released: !locked(c.lock)
   // the entry handed to OnDelete has already disappeared from the cache
   callback requires evicted_entry_gone: !haskey(c.items, strid(cbarg0))
+  // each OnDelete call is for exactly one entry that was live when this
+  // round of the eviction loop started - the oldest one in the list - with
+  // that entry's own key and value; nothing else has changed in the map
+  callback requires evicted_was_live: prev(haskey(c.items, strid(cbarg0))) &&
+    (let v = prev(mapget(c.items, strid(cbarg0))) in v.key == cbarg0 && v.value == cbarg1)
+  callback requires evicted_is_least_recent: addr(prev(mapget(c.items, strid(cbarg0))), "used") == prev(addr(c, "usage").next)
+  callback requires only_that_entry_removed: forall k: haskey(c.items, k) <==> (prev(haskey(c.items, k)) && k != strid(cbarg0))
+  callback requires others_untouched: forall k: haskey(c.items, k) ==> mapget(c.items, k) == prev(mapget(c.items, k))
+  // ... and in the list: the victim is cut out, every other link is kept
+  callback requires evicted_unlinked_only_next: (let s = addr(c, "usage") in let n = prev(addr(c, "usage").next.next) in
+    s.next == n && (forall k: haskey(c.items, k) ==> (let a = addr(mapget(c.items, k), "used") in a.next == prev(a.next))))
+  callback requires evicted_unlinked_only_prev: (let s = addr(c, "usage") in let n = prev(addr(c, "usage").next.next) in
+    s.prev == (s == n ? s : prev(addr(c, "usage").prev)) &&
+    (forall k: haskey(c.items, k) ==> (let a = addr(mapget(c.items, k), "used") in a.prev == (a == n ? s : prev(a.prev)))))
   callback modifies c.items, c.size, c.hit, c.miss, allof("listItem"), allof("map[string]*item")
   callback ensures !locked(c.lock)
   ensures unlocked: !locked(c.lock)
@@ -118,6 +158,52 @@ func (*cache).Set
   ensures stored: (len(key) + len(val) <= c.conf.MaxElementSize &&
     (c.conf.EnableLRU || !(old(c.size) + len(key) + len(val) > c.conf.MaxSize || old(len(c.items)) == c.conf.MaxCount))) ==>
     haskey(c.items, strid(key)) && mapget(c.items, strid(key)).value == val && mapget(c.items, strid(key)).key == key
+  // LRU: the stored entry is the most recently used one
+  ensures seq_stored_entry_is_most_recent: c.conf.EnableLRU && len(key) + len(val) <= c.conf.MaxElementSize ==>
+    addr(c, "usage").prev == addr(mapget(c.items, strid(key)), "used")
+  // ... and nothing else is reordered when no room is needed: a new key's node
+  // is appended at the end; a replaced key's old node is cut out and the new
+  // one appended; every other link is what it was
+  ensures seq_insert_appends_next: c.conf.EnableLRU && len(key) + len(val) <= c.conf.MaxElementSize &&
+    !(old(c.size) + len(key) + len(val) > c.conf.MaxSize || old(len(c.items)) == c.conf.MaxCount) && !old(haskey(c.items, strid(key))) ==>
+    (let s = addr(c, "usage") in let last = old(addr(c, "usage").prev) in let nw = addr(mapget(c.items, strid(key)), "used") in
+     s.next == (s == last ? nw : old(addr(c, "usage").next)) &&
+     (forall k: haskey(c.items, k) ==> (let a = addr(mapget(c.items, k), "used") in a.next == (a == nw ? s : (a == last ? nw : old(a.next))))))
+  using seq_untouched_unless_evicting, seq_heaps_untouched_unless_evicting, evicts_only_with_lru, unpublished, items_keyed, lru_items_linked, sentinel_linked, oldest_is_entry, newest_is_entry, monitor_inv, list_inv, lock_held
+  ensures seq_insert_appends_prev: c.conf.EnableLRU && len(key) + len(val) <= c.conf.MaxElementSize &&
+    !(old(c.size) + len(key) + len(val) > c.conf.MaxSize || old(len(c.items)) == c.conf.MaxCount) && !old(haskey(c.items, strid(key))) ==>
+    (let s = addr(c, "usage") in let last = old(addr(c, "usage").prev) in let nw = addr(mapget(c.items, strid(key)), "used") in
+     s.prev == nw &&
+     (forall k: haskey(c.items, k) ==> (let a = addr(mapget(c.items, k), "used") in a.prev == (a == nw ? last : old(a.prev)))))
+  using seq_untouched_unless_evicting, seq_heaps_untouched_unless_evicting, evicts_only_with_lru, unpublished, items_keyed, lru_items_linked, sentinel_linked, oldest_is_entry, newest_is_entry, monitor_inv, list_inv, lock_held
+  ensures seq_replace_most_recent_next: c.conf.EnableLRU && len(key) + len(val) <= c.conf.MaxElementSize &&
+    !(old(c.size) + len(key) + len(val) > c.conf.MaxSize || old(len(c.items)) == c.conf.MaxCount) && old(haskey(c.items, strid(key))) && addr(old(mapget(c.items, strid(key))), "used") == old(addr(c, "usage").prev) ==>
+    (let s = addr(c, "usage") in let last = old(addr(c, "usage").prev) in let nw = addr(mapget(c.items, strid(key)), "used") in
+     let p = old(addr(mapget(c.items, strid(key)), "used").prev) in let n = old(addr(mapget(c.items, strid(key)), "used").next) in
+     s.next == (s == p ? nw : old(addr(c, "usage").next)) &&
+     (forall k: haskey(c.items, k) ==> (let a = addr(mapget(c.items, k), "used") in a.next == (a == nw ? s : (a == p ? nw : old(a.next))))))
+  using seq_untouched_unless_evicting, seq_heaps_untouched_unless_evicting, evicts_only_with_lru, unpublished, items_keyed, lru_items_linked, sentinel_linked, oldest_is_entry, newest_is_entry, monitor_inv, list_inv, lock_held
+  ensures seq_replace_most_recent_prev: c.conf.EnableLRU && len(key) + len(val) <= c.conf.MaxElementSize &&
+    !(old(c.size) + len(key) + len(val) > c.conf.MaxSize || old(len(c.items)) == c.conf.MaxCount) && old(haskey(c.items, strid(key))) && addr(old(mapget(c.items, strid(key))), "used") == old(addr(c, "usage").prev) ==>
+    (let s = addr(c, "usage") in let last = old(addr(c, "usage").prev) in let nw = addr(mapget(c.items, strid(key)), "used") in
+     let p = old(addr(mapget(c.items, strid(key)), "used").prev) in let n = old(addr(mapget(c.items, strid(key)), "used").next) in
+     s.prev == nw &&
+     (forall k: haskey(c.items, k) ==> (let a = addr(mapget(c.items, k), "used") in a.prev == (a == nw ? p : old(a.prev)))))
+  using seq_untouched_unless_evicting, seq_heaps_untouched_unless_evicting, evicts_only_with_lru, unpublished, items_keyed, lru_items_linked, sentinel_linked, oldest_is_entry, newest_is_entry, monitor_inv, list_inv, lock_held
+  ensures seq_replace_other_next: c.conf.EnableLRU && len(key) + len(val) <= c.conf.MaxElementSize &&
+    !(old(c.size) + len(key) + len(val) > c.conf.MaxSize || old(len(c.items)) == c.conf.MaxCount) && old(haskey(c.items, strid(key))) && !(addr(old(mapget(c.items, strid(key))), "used") == old(addr(c, "usage").prev)) ==>
+    (let s = addr(c, "usage") in let last = old(addr(c, "usage").prev) in let nw = addr(mapget(c.items, strid(key)), "used") in
+     let p = old(addr(mapget(c.items, strid(key)), "used").prev) in let n = old(addr(mapget(c.items, strid(key)), "used").next) in
+     s.next == (s == p ? n : (s == last ? nw : old(addr(c, "usage").next))) &&
+     (forall k: haskey(c.items, k) ==> (let a = addr(mapget(c.items, k), "used") in a.next == (a == nw ? s : (a == p ? n : (a == last ? nw : old(a.next)))))))
+  using seq_untouched_unless_evicting, seq_heaps_untouched_unless_evicting, evicts_only_with_lru, unpublished, items_keyed, lru_items_linked, sentinel_linked, oldest_is_entry, newest_is_entry, monitor_inv, list_inv, lock_held
+  ensures seq_replace_other_prev: c.conf.EnableLRU && len(key) + len(val) <= c.conf.MaxElementSize &&
+    !(old(c.size) + len(key) + len(val) > c.conf.MaxSize || old(len(c.items)) == c.conf.MaxCount) && old(haskey(c.items, strid(key))) && !(addr(old(mapget(c.items, strid(key))), "used") == old(addr(c, "usage").prev)) ==>
+    (let s = addr(c, "usage") in let last = old(addr(c, "usage").prev) in let nw = addr(mapget(c.items, strid(key)), "used") in
+     let p = old(addr(mapget(c.items, strid(key)), "used").prev) in let n = old(addr(mapget(c.items, strid(key)), "used").next) in
+     s.prev == nw &&
+     (forall k: haskey(c.items, k) ==> (let a = addr(mapget(c.items, k), "used") in a.prev == (a == nw ? last : (a == n ? p : old(a.prev))))))
+  using seq_untouched_unless_evicting, seq_heaps_untouched_unless_evicting, evicts_only_with_lru, unpublished, items_keyed, lru_items_linked, sentinel_linked, oldest_is_entry, newest_is_entry, monitor_inv, list_inv, lock_held
   // From the property statement (known finding, see /verif/known_findings.json:
   // both fail when an existing key is replaced in a cache that is full before
   // the replacement is accounted for - the oldest entry is evicted although no
@@ -132,11 +218,13 @@ func (*cache).Set
     !(old(c.size) + len(key) + len(val) > c.conf.MaxSize || old(len(c.items)) == c.conf.MaxCount) &&
     !old(haskey(c.items, strid(key))) ==>
     (c.size - (old(c.size) + len(key) + len(val))) % 18446744073709551616 == 0
+  using seq_untouched_unless_evicting, seq_heaps_untouched_unless_evicting, evicts_only_with_lru, unpublished, items_keyed, lock_held
   ensures size_accounting_replaced_key: len(key) + len(val) <= c.conf.MaxElementSize &&
     !(old(c.size) + len(key) + len(val) > c.conf.MaxSize || old(len(c.items)) == c.conf.MaxCount) &&
     old(haskey(c.items, strid(key))) ==>
     (let it = old(mapget(c.items, strid(key))) in
      (c.size - (old(c.size) + len(key) + len(val) - (len(it.key) + len(it.value)))) % 18446744073709551616 == 0)
+  using seq_untouched_unless_evicting, seq_heaps_untouched_unless_evicting, evicts_only_with_lru, unpublished, items_keyed, lock_held
   ensures without_lru_reports_replacement: !c.conf.EnableLRU && haskey(c.items, strid(key)) && !(len(key) + len(val) > c.conf.MaxElementSize) &&
     !(old(c.size) + len(key) + len(val) > c.conf.MaxSize || old(len(c.items)) == c.conf.MaxCount) ==> (result0 <==> old(haskey(c.items, strid(key))))
   loop 0
@@ -150,8 +238,12 @@ func (*cache).Set
     invariant seq_untouched_unless_evicting: !(old(c.size) + addSize > c.conf.MaxSize || old(len(c.items)) == c.conf.MaxCount) ==>
       c.items == old(c.items) && c.size == old(c.size) && len(c.items) == old(len(c.items)) &&
       (forall k: (haskey(c.items, k) <==> old(haskey(c.items, k))) && mapget(c.items, k) == old(mapget(c.items, k)))
+    invariant seq_heaps_untouched_unless_evicting: !(old(c.size) + addSize > c.conf.MaxSize || old(len(c.items)) == c.conf.MaxCount) ==>
+      unchanged("listItem") && unchanged("map[string]*item")
     invariant seq_no_callback_unless_evicting: !(old(c.size) + addSize > c.conf.MaxSize || old(len(c.items)) == c.conf.MaxCount) ==> cbcalls() == 0
     assume_invariant list_inv: monitor_assumed(c, "lock")
+    // one OnDelete call per round
+    step one_callback_per_eviction: c.conf.OnDelete != nil ==> cbcalls() == prev(cbcalls()) + 1
     // when room is needed there is something to evict (follows from
     // Size == sum of the live lengths and "every entry is in the list",
     // neither of which is expressible here)
